@@ -65,6 +65,8 @@ type Result struct {
 	CrashStates  int            `json:"crash_states"`
 	WallS        float64        `json:"wall_s"`
 	Inconclusive int            `json:"inconclusive"`
+	Skipped      int            `json:"skipped_precondition"`
+	SkippedWhy   map[string]int `json:"skipped_why"`
 	InconcWhy    map[string]int `json:"inconclusive_why"`
 	Violations   []Violation    `json:"violations"`
 	Masked       map[string]int `json:"masked_by_known_finding"`
@@ -203,7 +205,7 @@ func run(args []string) {
 	hashlog := fs.Bool("hashlog", false, "print one line per case (index, event-log hash, verdict) instead of a result")
 	fs.Parse(args)
 	ch := harness.Checks[*prop]
-	res := &Result{Property: *prop, Tier: *tier, Seed: *seed, Worker: *wk, Masked: map[string]int{}, Faults: map[string]int{}, Probes: map[string]int{}, InconcWhy: map[string]int{}}
+	res := &Result{Property: *prop, Tier: *tier, Seed: *seed, Worker: *wk, Masked: map[string]int{}, Faults: map[string]int{}, Probes: map[string]int{}, InconcWhy: map[string]int{}, SkippedWhy: map[string]int{}}
 	write := func() {
 		b, _ := json.Marshal(res)
 		if *out == "" {
@@ -278,6 +280,9 @@ func run(args []string) {
 		case "inconclusive":
 			res.Inconclusive++
 			res.InconcWhy[v.Detail]++
+		case "skipped":
+			res.Skipped++
+			res.SkippedWhy[v.Clause]++
 		case "violation":
 			if k := matchKnown(known, v); k != nil {
 				res.Masked[k.ID]++
